@@ -233,6 +233,11 @@ def make_machine(plugin: str, pool: Pool, ctx: Ctx, stats: collections.Counter, 
                     r = gen.run_generator(plugin, d, models=pool.lists[key], hashseed=hs, timeout=1800)
                     if r.returncode != 0:
                         refs[key] = (hs, {"<plugin failed>": (r.stderr or r.stdout)[-200:]})
+                        stats["reference_failed"] += 1
+                        if not key.startswith("evo"):
+                            # the committed model and what is cut out of it generate: a failure in a fresh directory is a
+                            # fault of the harness or of the tree, never "C06's matter"
+                            raise HarnessError(f"the reference run of {plugin} on pool model {key} fails in a fresh directory: {(r.stderr or r.stdout)[-300:]}")
                     else:
                         refs[key] = (hs, owned_digest(plugin, d))
                     stats["reference_runs"] += 1
@@ -523,6 +528,8 @@ def _work(args) -> dict:
             for other in [p_ for p_ in PLUGINS if p_ != plugin]:
                 order += [f"~{other}=small_b", "=small_b"]
             res = in_child(child_inprocess, plugin, pool.lists, order, timeout=1500)
+            if res is None:
+                stats["inprocess_history_timed_out"] += 1
             if res is not None:
                 mref = M()
                 try:
